@@ -69,7 +69,7 @@ func (c *c06) Run(cs core.Case) core.Result {
 	core.Decode(cs, &p)
 	r := core.NewR(cs)
 	rng := rand.New(rand.NewSource(p.Seed))
-	set := genP2Set(rng, 5, []string{"random"}, false)
+	set := genP2Set(rng, 5, []string{"random"}, true)
 	if set.SliceSize > 512 {
 		set.SliceSize = 64
 	}
